@@ -212,8 +212,7 @@ func H_C12_collision(n int) {
 	res := fm.BuildResponse()
 	for i, g := range res.Contents {
 		for j := 0; j < i; j++ {
-			zzrt.Known("KF-C12-rename-collides-with-submitted-name", res.Contents[j].GetName() != g.GetName(),
-				"feeding a.go(c1), a.go(c2) [renamed a_1.go] and then a_1.go(c3) or a further a.go yields two output files that share one name: the rename probe picks a name that was itself submitted")
+			zzrt.Assert(res.Contents[j].GetName() != g.GetName(), "two output files share one name (the rename probe picked a name that was itself submitted)")
 		}
 	}
 	// every submitted (name, content) whose name was new at that time is still there under that name
